@@ -1,0 +1,13 @@
+//go:build verif
+
+package generator
+
+import "github.com/EliCDavis/polyform/generator/graph"
+
+// VerifGraph exposes the app's graph instance (creating it like Run does) so that a
+// verification harness can drive the same object that Schema() and ApplySchema()
+// serialise. Only compiled with the `verif` build tag.
+func (a *App) VerifGraph() *graph.Instance {
+	a.initGraphInstance()
+	return a.graphInstance
+}
